@@ -37,10 +37,13 @@ def rand_installation(gen: int, rng: random.Random):
     if gen == 4:
         fmt = rng.choice(["bitmap", "bitmap", "old"])
         n_z = rng.choice([1, 2, 3, 5, 8, 16])
+        # AC numbers need not be 0..n-1 (a console with ACs 0 and 2): the fixed four-entry timer frame and status
+        # frames then carry entries about ACs that do not exist between those that do
+        nums4 = sorted(rng.sample(range(4), n_acs)) if rng.random() < 0.35 else list(range(n_acs))
         if fmt == "bitmap":
             ids = sorted(rng.sample(range(16), n_z))
             owner = {z: rng.randrange(n_acs) for z in ids}
-            acs = [console.AcSpec(i, f"AC {i}", rand_bits(rng, 5), rand_bits(rng, nf), lims, start=rng.randrange(4), count=rng.randrange(4),
+            acs = [console.AcSpec(nums4[i], f"AC {nums4[i]}", rand_bits(rng, 5), rand_bits(rng, nf), lims, start=rng.randrange(4), count=rng.randrange(4),
                                   groups={z for z in ids if owner[z] == i}) for i in range(n_acs)]
         else:
             ids = list(range(n_z))
@@ -48,12 +51,12 @@ def rand_installation(gen: int, rng: random.Random):
             bounds = [0] + cuts + [n_z]
             while len(bounds) < n_acs + 1:
                 bounds.append(n_z)
-            acs = [console.AcSpec(i, f"AC {i}", rand_bits(rng, 5), rand_bits(rng, nf), lims, start=bounds[i], count=bounds[i + 1] - bounds[i],
+            acs = [console.AcSpec(nums4[i], f"AC {nums4[i]}", rand_bits(rng, 5), rand_bits(rng, nf), lims, start=bounds[i], count=bounds[i + 1] - bounds[i],
                                   groups=None) for i in range(n_acs)]
             if n_acs == 1:
                 # "If one AC only, ignore these two bytes. All groups belong to this AC."
                 acs[0].start, acs[0].count = rng.randrange(0, 4), rng.randrange(0, n_z + 1)
-        numbers = list(range(n_acs))
+        numbers = nums4
     else:
         n_z = rng.choice([0, 0, 1, 2, 3, 5, 8, 16])
         ids = list(range(n_z))
